@@ -253,3 +253,13 @@ def extra_at_depth(rng, depth):
 REQ_PREFIXES = ["pkg", "pkg ", "pkg[a]", "pkg [a, b_c] ", "pkg>=1.0", "pkg >=1.0,<2 ", "pkg (>=1.0)", "pkg ( ==1.0.* , !=1.0.3 ) ", "pkg==1.0+local",
                 "pkg~=2.1", "pkg===foo ", "Foo.Bar-baz [x]>=1a1", "pkg @ https://example.com/p.whl ", "pkg[a] @ file:///tmp/x#sha=1;2 \t",
                 " pkg\t", "p"]
+
+
+def long_expr(rng, n):
+    """a flat formula with n atoms (or-lists / and-lists far longer than rand_expr's 3), a few of them parenthesised sub-formulas"""
+    conjs, cur = [], []
+    for _ in range(n):
+        cur.append(("paren", rand_expr(rng, 0)) if rng.random() < 0.1 else rand_atom(rng))
+        if rng.random() < 0.35: conjs.append(("and", cur)); cur = []
+    if cur: conjs.append(("and", cur))
+    return ("or", conjs)
